@@ -452,6 +452,25 @@ protected:
     }
 #endif
 
+    // Access only the first num_bytes bytes of the bit field (num_bytes <= sizeof(bitfield_t)).
+    // Used by references whose bit range may end before a complete bit field does
+    // (e.g. the last pixels of a bit-aligned image), so that no byte beyond the range is touched.
+    auto get_data(std::size_t num_bytes) const -> bitfield_t
+    {
+        bitfield_t ret = 0;
+        unsigned char const* from = gil_reinterpret_cast_c<unsigned char const*>(_data_ptr);
+        unsigned char* to = gil_reinterpret_cast<unsigned char*>(&ret);
+        for (std::size_t i = 0; i < num_bytes; ++i) to[i] = from[i];
+        return ret;
+    }
+
+    void set_data(bitfield_t const& val, std::size_t num_bytes) const
+    {
+        unsigned char const* from = gil_reinterpret_cast_c<unsigned char const*>(&val);
+        unsigned char* to = gil_reinterpret_cast<unsigned char*>(_data_ptr);
+        for (std::size_t i = 0; i < num_bytes; ++i) to[i] = from[i];
+    }
+
 private:
     void set(integer_t value) const {     // can this be done faster??
         this->derived().set_unsafe(((value % num_values) + num_values) % num_values);
@@ -662,8 +681,12 @@ public:
     auto get() const -> integer_t
     {
         const BitField channel_mask = static_cast< integer_t >( parent_t::max_val ) <<_first_bit;
-        return static_cast< integer_t >(( this->get_data()&channel_mask ) >> _first_bit );
+        return static_cast< integer_t >(( this->get_data(num_bytes())&channel_mask ) >> _first_bit );
     }
+
+private:
+    // number of bytes spanned by the channel's bit range
+    auto num_bytes() const -> std::size_t { return (_first_bit + NumBits + 7) / 8; }
 };
 
 /// \brief Models a mutable subbyte channel reference whose bit offset is a runtime parameter. Models ChannelConcept
@@ -708,13 +731,17 @@ public:
     auto get() const -> integer_t
     {
         BitField const channel_mask = static_cast< integer_t >( parent_t::max_val ) << _first_bit;
-        return static_cast< integer_t >(( this->get_data()&channel_mask ) >> _first_bit );
+        return static_cast< integer_t >(( this->get_data(num_bytes())&channel_mask ) >> _first_bit );
     }
 
     void set_unsafe(integer_t value) const {
         const BitField channel_mask = static_cast< integer_t >( parent_t::max_val ) << _first_bit;
-        this->set_data((this->get_data() & ~channel_mask) | value<<_first_bit);
+        this->set_data((this->get_data(num_bytes()) & ~channel_mask) | value<<_first_bit, num_bytes());
     }
+
+private:
+    // number of bytes spanned by the channel's bit range
+    auto num_bytes() const -> std::size_t { return (_first_bit + NumBits + 7) / 8; }
 };
 } }  // namespace boost::gil
 
